@@ -10,7 +10,18 @@ From IT.gen Require Import GenInventory.
 Open Scope string_scope.
 
 Theorem SRC_inventory_lib : inv_lib = [
-  ("file attributes", ["#![forbid(unsafe_code)]"; "#![cfg_attr(not(feature='std'),no_std)]"])
+  ("file attributes", ["#![forbid(unsafe_code)]"; "#![cfg_attr(not(feature='std'),no_std)]"]);
+  ("extern crate alloc", []);
+  ("use crate :: { arena :: Arena , debug_pretty_print :: DebugPrettyPrint , error :: NodeError , id :: NodeId , node :: Node , traverse :: { Ancestors , Children , Descendants , FollowingSiblings , NodeEdge , PrecedingSiblings , Predecessors , ReverseChildren , ReverseTraverse , Traverse , } , }", []);
+  ("use indextree_macros as macros", ["#[cfg(feature='macros')]"]);
+  ("mod relations;", ["#[macro_use]"]);
+  ("mod arena;", []);
+  ("mod debug_pretty_print;", []);
+  ("mod error;", []);
+  ("mod id;", []);
+  ("mod node;", []);
+  ("mod siblings_range;", []);
+  ("mod traverse;", [])
 ].
 Proof. reflexivity. Qed.
 
